@@ -47,6 +47,11 @@ CLAIMED = {
    note="Bounds: <=3 markers x <=2 gametes (quick), <=5 markers (thorough). The step from the proved per-gamete law to convergence of empirical proportions is the law of large numbers (mathematical, not solver-checked); uniformity/independence of the real generator is the stub contract.",
    technique="symbolic path enumeration of the real kernel (symnp) + z3: path-condition equivalence, bijection, polynomial identities (QF_NRA); exp as uninterpreted function with axioms; replay with scripted draws",
    design="2/C02"),
+   "C11": dict(
+   text="Bounded symbolic model checking of the real Haldane/Kosambi map functions, StandardGeneticMap and ExtendedGeneticMap (constructor sort/group, build_spline, interp_genpos, interp_gmap, gdist1g/2g/1p/2p) and DenseGeneticMappableMatrix.interp_xoprob on symbolic genetic/physical positions and query positions, for every enumerated row order: z3 proves range/zero/monotonicity/inverse laws of the map functions from their source (exp/log/tanh/arctanh axiomatised), that the constructed map is the sorted permutation of its rows with a correct chromosome partition, the metric laws of the distance functions, interpolation at own markers, linearity and order preservation between flanking markers, NaN on absent chromosomes, independence of the supplied row order (also for auto_group=False maps) and xoprob = mapfn(consecutive interpolated distance) with one half at chromosome starts even when stale positions are present.",
+   note="Bounds: <=2 chromosomes x <=3 markers (thorough: up to (3,2),(4)), positions symbolic; interp1d is a piecewise-linear model validated against scipy on path models; transcendental functions by axioms; exact reals.",
+   technique="symbolic execution on z3-term arrays (symnp) + z3 (QF_NRA + uninterpreted functions with instantiated axioms); contract model of scipy interp1d; replay on real numpy/scipy",
+   design="2/C11"),
 }
 NA = {}
 for pid in props:
